@@ -174,4 +174,16 @@ CHECKS = {
                 "assumption), and the window's end is the dispatch position at the cancel request",
         "technique": "Lean 4 proof (log-segment and registration invariants by induction over action sequences, refutation witnesses) + regenerated tie lemmas + scripted hold/release correspondence and concurrent storms",
     },
+    "C14": {
+        "text": "Lean 4 theorems about the property register, for every declaration set, validator and operation sequence: "
+                "every stored value — hence every value read — has the declared type; a refused write (unknown property, "
+                "wrong type, name of another kind, unknown id, validator) changes nothing and emits nothing; an accepted "
+                "write is what the next read returns and emits exactly one change event carrying it, other properties "
+                "untouched; the same for service-side updates; for concurrent writers (checks / save / notify interleaved "
+                "arbitrarily) the register is at every moment the committed writes in the order of their save steps; tied "
+                "by the regenerated flows of SetProperty / Property / saveProperty / UpdateProperty and the generated "
+                "callback, and by exact and concurrent runs on two real objects",
+        "note": "the order of change events of concurrent writers may differ from the order of their saves (events are sent after the lock is released): not part of the statement",
+        "technique": "Lean 4 proof (typing invariant, refinement of the split machine to the committed-write log) + regenerated tie lemmas + exact correspondence and linearizability-checked concurrent histories",
+    },
 }
